@@ -79,6 +79,11 @@ struct H {
 // Independent scan of a *text* .sol file for the suffix headers after the objno line: "suffix <kind> <n> <namelen> <tablen> <tablines>".
 // Returns false if the text does not have the plain shape (then nothing is compared).
 bool scan_text_suffix_headers(const std::string& t, std::vector<std::pair<long, long>>& out) {
+  // plain shape only: the reader and this scan must agree on what a line is and on where the suffixes start -
+  //   exactly one line starts with "objno " (the message text may contain anything, also such lines), no NUL, and no line is
+  //   long enough to be split by the reader's 512-byte line buffer
+  if (t.find('\0') != std::string::npos) return false;
+  { size_t cnt = 0, p = 0; while (p < t.size()) { size_t e = t.find('\n', p); if (e == std::string::npos) e = t.size(); if (e - p > 500) return false; if (t.compare(p, 6, "objno ") == 0) ++cnt; p = e + 1; } if (cnt != 1) return false; }
   size_t pos = 0; bool after_objno = false;
   while (pos < t.size()) {
     size_t e = t.find('\n', pos); if (e == std::string::npos) e = t.size();
@@ -91,7 +96,15 @@ bool scan_text_suffix_headers(const std::string& t, std::vector<std::pair<long, 
     if (n < 0 || namelen < 2 || tablen < 0 || tablines < 0 || n > 100000 || tablines > 100000) return false;
     out.push_back({namelen, tablen});
     long skip = 1 + (tablen ? tablines : 0) + n;          // name line, table lines, value lines
-    for (long k = 0; k < skip; ++k) { if (pos > t.size()) return false; size_t e2 = t.find('\n', pos); if (e2 == std::string::npos) { if (k + 1 < skip) return false; e2 = t.size(); } pos = e2 + 1; }
+    long table_bytes = 0;
+    for (long k = 0; k < skip; ++k) {
+      if (pos > t.size()) return false;
+      size_t e2 = t.find('\n', pos); if (e2 == std::string::npos) { if (k + 1 < skip) return false; e2 = t.size(); }
+      if (tablen && k >= 1 && k <= tablines) table_bytes += (long)(e2 - pos) + 1;
+      pos = e2 + 1;
+    }
+    // a table line that does not fit into what is left of the stated length is read piecewise by the reader: lines no longer correspond
+    if (tablen && table_bytes > tablen) return false;
   }
   return after_objno;
 }
